@@ -170,7 +170,7 @@ func lcPlanFor(prop, tier string) lcPlan {
 	case prop == "C07" && tier == "thorough":
 		return lcPlan{gen.EnumParams{MaxAdds: []int{4, 3, 2}}, 300000}
 	case prop == "C07":
-		return lcPlan{gen.EnumParams{MaxAdds: []int{3, 2, 2}}, 5000}
+		return lcPlan{gen.EnumParams{MaxAdds: []int{3, 2, 2}}, 20000}
 	case tier == "thorough":
 		return lcPlan{gen.EnumParams{MaxAdds: []int{4, 3, 2}}, 300000}
 	default:
